@@ -65,7 +65,7 @@ DESCRIBE = {
         "expected_probes": ["two-threads-inside-same-fill", "async-fault-inside-fill", "async-fault-after-store", "async-fault-idle"],
     },
     "C04": {
-        "budgets": {"quick": (5000, 240), "thorough": (400000, 3300)},
+        "budgets": {"quick": (6000, 240), "thorough": (400000, 3300)},
         "rule": ('one evaluation = one seeded history of 3-14 public Curve mutators (knot_insert, knot_remove, degree_increase/decrease, degree setter, knot_clean, degree_clean, clean; ~0-45% of steps carry an invalid request; SimPoint/ndarray value faults on the insertion/elevation paths) on a curve over exact rationals (or floats, tolerance mode), polynomial or rational, scalar or vector points; the abstract state is re-derived from the implementation before every step and only the steps owned by this property are judged: every knot_insert step: valid request must succeed, knot vector = sorted multiset union, same function (exact piecewise-polynomial / cross-multiplied rational comparison), weights present iff before, invalid request refused with ValueError, any refusal atomic; non-trivial = at least one successful transition AND one fired fault; distinct = distinct event-log digest'),
         "real": REAL_ALL,
         "stubs": ["SimPoint control-point types (full / minimal / nofloat / bounded profiles) and int64 ndarray points on the value seam",
@@ -74,7 +74,7 @@ DESCRIBE = {
         "expected_probes": ['insert-outside', 'insert-excess-multiplicity', 'insert-at-value-zero', 'insert-at-existing-knot'],
     },
     "C05": {
-        "budgets": {"quick": (3000, 240), "thorough": (250000, 3300)},
+        "budgets": {"quick": (4000, 240), "thorough": (250000, 3300)},
         "rule": ('one evaluation = one seeded history of 3-14 public Curve mutators (knot_insert, knot_remove, degree_increase/decrease, degree setter, knot_clean, degree_clean, clean; ~0-45% of steps carry an invalid request; SimPoint/ndarray value faults on the insertion/elevation paths) on a curve over exact rationals (or floats, tolerance mode), polynomial or rational, scalar or vector points; the abstract state is re-derived from the implementation before every step and only the steps owned by this property are judged: every knot_remove step: classified by the model as exactly removable (continuity analysis, or undo of the previous insertion) / not removable / absent / end knot; removable must succeed for every tolerance with zero deviation and undo restores the state identically; not removable is either refused with ValueError (unchanged) or accepted with exact integral of squared deviation within 2*tol*max(1,width); tolerance=None must succeed and interpolate the old curve at every remaining knot; non-trivial = at least one successful transition AND one fired fault; distinct = distinct event-log digest'),
         "real": REAL_ALL,
         "stubs": ["SimPoint control-point types (full / minimal / nofloat / bounded profiles) and int64 ndarray points on the value seam",
@@ -83,7 +83,7 @@ DESCRIBE = {
         "expected_probes": ['undo-of-insertion', 'remove-exactly-removable', 'remove-not-removable', 'remove-absent', 'remove-end-or-illformed', 'removal-at-multiplicity-p+1'],
     },
     "C06": {
-        "budgets": {"quick": (3000, 240), "thorough": (250000, 3300)},
+        "budgets": {"quick": (4000, 240), "thorough": (250000, 3300)},
         "rule": ('one evaluation = one seeded history of 3-14 public Curve mutators (knot_insert, knot_remove, degree_increase/decrease, degree setter, knot_clean, degree_clean, clean; ~0-45% of steps carry an invalid request; SimPoint/ndarray value faults on the insertion/elevation paths) on a curve over exact rationals (or floats, tolerance mode), polynomial or rational, scalar or vector points; the abstract state is re-derived from the implementation before every step and only the steps owned by this property are judged: every degree_increase / degree setter / degree_decrease step: elevation must succeed, multiplicities +t, same function; reduction classified by the model (representable at the lower degree on the target vector, or undo of the previous elevation): reducible must succeed exactly and undo restores the state identically; otherwise refusal with ValueError (unchanged) or success within the deviation bound; tolerance=None must succeed and keep the values at the remaining knots; invalid t refused with ValueError; non-trivial = at least one successful transition AND one fired fault; distinct = distinct event-log digest'),
         "real": REAL_ALL,
         "stubs": ["SimPoint control-point types (full / minimal / nofloat / bounded profiles) and int64 ndarray points on the value seam",
@@ -92,7 +92,7 @@ DESCRIBE = {
         "expected_probes": ['undo-of-elevation', 'elevate-mixed-multiplicities', 'elevate-with-interior-knot-zero', 'reduce-inexpressible'],
     },
     "C14": {
-        "budgets": {"quick": (3000, 240), "thorough": (250000, 3300)},
+        "budgets": {"quick": (4000, 240), "thorough": (250000, 3300)},
         "rule": ("one evaluation = one seeded history of 3-14 public Curve mutators (knot_insert, knot_remove, degree_increase/decrease, degree setter, knot_clean, degree_clean, clean; ~0-45% of steps carry an invalid request; SimPoint/ndarray value faults on the insertion/elevation paths) on a curve over exact rationals (or floats, tolerance mode), polynomial or rational, scalar or vector points; the abstract state is re-derived from the implementation before every step and only the steps owned by this property are judged: every knot_clean / degree_clean / clean step: function preserved (exactly for tolerance 0; within the accumulated tolerance otherwise), after clean() degree and knot vector equal the model's unique minimal representation, knot_clean leaves exactly the needed multiplicity at every (listed) knot, degree_clean reaches the true degree, an immediately repeated call changes nothing, and two differently refined twins of one function clean to identical knots and control points; non-trivial = at least one successful transition AND one fired fault; distinct = distinct event-log digest"),
         "real": REAL_ALL,
         "stubs": ["SimPoint control-point types (full / minimal / nofloat / bounded profiles) and int64 ndarray points on the value seam",
@@ -101,7 +101,7 @@ DESCRIBE = {
         "expected_probes": ['clean-reached-minimal-form', 'clean-removed-something', 'twin-compared'],
     },
     "C15": {
-        "budgets": {"quick": (5000, 240), "thorough": (300000, 3300)},
+        "budgets": {"quick": (8000, 240), "thorough": (300000, 3300)},
         "rule": ("one evaluation = one seeded history of 3-22 public Curve operations (all mutators incl. setters, update and the fitters; evaluation, split, "
                  "join, curve and scalar arithmetic, ==, copies, fraction, Derivate, Integrate, Projection, Intersection) on a world of 1-6 curves created under "
                  "seeded aliasing layouts (independent, same KnotVector object, same KnotVector and same point objects, copy, deepcopy), with one point profile per "
